@@ -330,7 +330,7 @@ var OutputHook func(c *core.Ctx, f univ.Flavor, name string, mask int, m protore
 // Run enumerates messages; in outputsOnly mode only the hook runs.
 func Run(c *core.Ctx, outputsOnly bool) {
 	if !outputsOnly {
-		c.Rule = "messages = all slot lists of length <=k over the slot alphabet of each type (scalars incl. NaN/inf/-0, 64-bit boundaries, bytes, open-enum numbers, maps, oneofs, groups, extensions, unknown fields; all well-known types with in- and out-of-range seconds/nanos, Value/Struct/ListValue nesting incl. kind-less and non-finite Values, FieldMask paths, resolvable / unresolvable / malformed / nested Any) crossed with all 2^6 (or 8 representative) combinations of Multiline, Indent, UseProtoNames, UseEnumNumbers, EmitUnpopulated, EmitDefaultValues. Marshal must fail exactly when an independent predicate says the content is not representable; otherwise Unmarshal(Marshal(m)) must be proto.Equal (and snapshot-equal) to m with unknown fields removed recursively"
+		c.Rule = "messages = all slot lists of length <=k over the slot alphabet of each type (scalars incl. NaN/inf/-0, 64-bit boundaries, bytes, open-enum numbers, maps, oneofs, groups, extensions, unknown fields; all well-known types with in- and out-of-range seconds/nanos, Value/Struct/ListValue nesting incl. kind-less and non-finite Values, FieldMask paths, resolvable / unresolvable / malformed / nested Any) crossed with all 2^6 (or 8 representative) combinations of Multiline, Indent, UseProtoNames, UseEnumNumbers, EmitUnpopulated, EmitDefaultValues. Marshal must fail exactly when an independent predicate says the content is not representable; otherwise Unmarshal(Marshal(m)) - into a fresh destination or, for every second option set, into one that already holds another message - must be proto.Equal (and snapshot-equal) to m with unknown fields removed recursively"
 	}
 	c.Exhaustive = true
 	var planOut []map[string]any
@@ -405,6 +405,11 @@ func Run(c *core.Ctx, outputsOnly bool) {
 							continue
 						}
 						m2 := f.MT.New()
+						if mask&1 == 1 && len(alpha) > 0 {
+							// Unmarshal replaces the destination's content: for every second
+							// option set the destination already holds another message
+							m2 = f.Build([]*univ.Slot{alpha[len(alpha)/2]})
+						}
 						if err := (protojson.UnmarshalOptions{AllowPartial: true, Resolver: resolver(f)}).Unmarshal(jb, m2.Interface()); err != nil {
 							c.Violation(fmt.Sprintf("protojson.Unmarshal rejects Marshal output opts=%d type=%s case=%s", mask, f.Name, name), map[string]any{"err": err.Error(), "json": string(jb)})
 							continue
